@@ -23,7 +23,7 @@ func init() {
 			"oracle on every returned slice: no cursor identity twice, every cursor reachable from the queried root, Pos() strictly increasing or strictly decreasing, strictly increasing when the AST has no reverse axis or its top operator is '|'; also set-equal to the reference model; every tenth case queries two trees (a second document, or a clone of the first with coinciding positions) from 8 goroutines at once with //-paths and requires every result to consist of nodes of the queried tree and to equal the result obtained alone; " +
 			"union laws on library results only: A|B == B|A and (A|B)|C == A|(B|C) as sequences, A|A set-equal A and ascending, count(A|B) = count(A)+count(B)-|A∩B| (counts from count() queries, intersection by identity). distinct_nontrivial = distinct (document shape, expression) with >= 2 result nodes",
 		Assumptions: []string{"descending order is allowed for results of expressions that use a reverse axis (the existing tests pin it)", "a bare variable reference as the whole expression is not generated (it must evaluate to exactly the bound value, C11)"},
-		NCases:      func(tier string) int { return map[string]int{"quick": 3000, "thorough": 100000}[tier] },
+		NCases:      func(tier string) int { return map[string]int{"quick": 3000, "thorough": 60000}[tier] },
 		Case:        c03Case,
 	})
 }
